@@ -196,7 +196,7 @@ def install():
         kind = "GCM"
 
         def __init__(self, iv, tag=None, *a, **kw):
-            self.iv, self.tag = iv, tag
+            self.iv, self.tag, self.extra, self.kw = iv, tag, a, kw      # extra arguments are passed on (and logged)
 
     class _Ctx:
         def __init__(self, cipher, encrypt):
@@ -225,8 +225,10 @@ def install():
                 return out
             if self.encrypt:
                 args = [bytes(key), bytes(mode.iv), self.aad, self.buf]
+                if mode.extra or mode.kw:
+                    args.append(repr((mode.extra, sorted(mode.kw.items()))))
                 try:
-                    rc = RealCipher(RealAES(key), RealGCM(mode.iv))
+                    rc = RealCipher(RealAES(key), RealGCM(mode.iv, None, *mode.extra, **mode.kw))
                     x = rc.encryptor()
                     if self.aad is not None:
                         x.authenticate_additional_data(self.aad)
@@ -238,8 +240,10 @@ def install():
                 REC.add("gcm_enc", args, ok([out, self.tag]))
                 return out
             args = [bytes(key), bytes(mode.iv), self.aad, self.buf, bytes(mode.tag)]
+            if mode.extra or mode.kw:
+                args.append(repr((mode.extra, sorted(mode.kw.items()))))
             try:
-                rc = RealCipher(RealAES(key), RealGCM(mode.iv, mode.tag))
+                rc = RealCipher(RealAES(key), RealGCM(mode.iv, mode.tag, *mode.extra, **mode.kw))
                 x = rc.decryptor()
                 if self.aad is not None:
                     x.authenticate_additional_data(self.aad)
@@ -905,3 +909,41 @@ def key_jwk(k):
 def key_from_jwk(d):
     from joserfc.jwk import JWKRegistry
     return None if d is None else JWKRegistry.import_key(d)
+
+
+# --------------------------------------------------------------------------
+# evaluation of the cases in Coq: small shards (memory), one retry of shards whose
+# coqc process died without a verdict (e.g. killed under memory pressure)
+# --------------------------------------------------------------------------
+def coq_eval(cases, shard=30, max_chars=90000, jobs=10, attempt=0):
+    import time as _t
+    ev = lib.CoqEval(IMPORTS, "jwecase", "jwe_check", "jwe_show", shard=shard, max_chars=max_chars, preamble=preamble())
+    res = ev.run(cases, jobs=jobs)
+    if not res["errors"] or attempt >= 3:
+        return res
+    # shard boundaries, as CoqEval.run computes them
+    bounds, start, size = [], 0, 0
+    for i, c in enumerate(cases):
+        if i > start and (i - start >= shard or size + len(c) > max_chars):
+            bounds.append((start, i)); start, size = i, 0
+        size += len(c)
+    if cases:
+        bounds.append((start, len(cases)))
+    ends = dict(bounds)
+    errors = []
+    for si, out in res["errors"]:
+        if si not in ends or "Error" in out:
+            errors.append((si, out))        # a genuine Coq error: keep it
+            continue
+        # the process died without a verdict (killed under memory pressure / timeout): evaluate again, smaller and slower
+        _t.sleep(2 * (attempt + 1))
+        sub = cases[si:ends[si]]
+        r2 = coq_eval(sub, shard=max(1, len(sub) // 3 + 1), max_chars=max_chars, jobs=2, attempt=attempt + 1)
+        res["evaluated"] += r2["evaluated"]
+        res["failing"] += [si + i for i in r2["failing"]]
+        for k, v in r2["shows"].items():
+            res["shows"][si + k] = v
+        errors += [(si + a, b) for a, b in r2["errors"]]
+    res["errors"] = errors
+    res["failing"].sort()
+    return res
